@@ -57,7 +57,7 @@ CLAIMED.update({
     "C18": {
         "engine": "simpool",
         "technique": "deterministic simulation: swarm over each entry point's option cross-product (seeded permutation without repetition) executed under simulated pool schedules, stragglers, stalls and timeouts with progress/outcome monitors; outcome classification completed / refused up front / aborted part-way",
-        "text": "Every analysis entry point (3 KK entry points x 7 tests, Z-HIT, DRT tr-nnls/lm/bht/mrq-fit/tr-rbf, fit_circuit) is called with option tuples drawn without repetition from its full option cross-product, on spectra from 1 point upward with and without masks, under seeded worker counts/schedules/stragglers/stalled workers; each outcome is classified as completed, refused up front, or aborted part-way (violation, keyed by call site), and every progress notification must carry a fraction in [0,1] and a str message. Known aborts on the unchanged tree are listed by call site in KNOWN_FINDINGS.jsonl; anything else is a violation.",
+        "text": "Every analysis entry point (3 KK entry points x 7 tests incl. the options forwarded to the number-of-RC suggestion, Z-HIT, DRT tr-nnls/lm/bht incl. shape/symmetry options/mrq-fit/tr-rbf, fit_circuit incl. constraint expressions) is called with option tuples drawn without repetition from its full option cross-product, on spectra from 1 point upward with and without masks, under seeded worker counts/schedules/stragglers/stalled workers, after seeded preludes (refused, aborting or completing analyses, the same analysis on a sibling spectrum with one more point) and on data sets that went through a mask history (mask, read one view, set_mask({})); each outcome is classified as completed, refused up front, or aborted part-way (violation, keyed by call site), and every progress notification must carry a fraction in [0,1] and a str message. Known aborts on the unchanged tree are listed by call site in KNOWN_FINDINGS.jsonl; anything else is a violation.",
         "design_ref": "DESIGN.md 4 (C18)",
         "note": "'refused up front' is operational (library exception at any time; TypeError/ValueError before any pool task and within the first progress step, raised by pyimpspec's own validation); coverage of option tuples is sampled and counted, not exhaustive",
     },
@@ -120,7 +120,7 @@ def build():
         ],
         "checks": checks,
         "not_applicable": na,
-        "notes": "Technique family: deterministic simulation with fault injection. Exit codes of every check: 0 held (KNOWN-FINDING lines possible), 1 VIOLATION with a replay that reproduced in a fresh interpreter, 2 harness error (never a verdict). Known findings: /verif/KNOWN_FINDINGS.jsonl (12 fixed by fix: commits in /repo; 15 known: 14 x C18 by call site, 1 x C12 rare recovery stall with a frequency condition). Sensitivity: selftest/run_mutants.py (25 catalogue mutants, 54 seeded changes from independent sub-agents under /verif/seeded, 12 behaviour-preserving refactorings under /verif/benign that must stay quiet). DESIGN.md sections 11-14 describe the code as built.",
+        "notes": "Technique family: deterministic simulation with fault injection. Exit codes of every check: 0 held (KNOWN-FINDING lines possible), 1 VIOLATION with a replay that reproduced in a fresh interpreter, 2 harness error (never a verdict). Known findings: /verif/KNOWN_FINDINGS.jsonl (13 fixed by fix: commits in /repo; 16 known: 15 x C18 by call site, 1 x C12 rare recovery stall with a frequency condition). Sensitivity: selftest/run_mutants.py (25 catalogue mutants, 75 seeded changes from independent sub-agents (4 rounds) under /verif/seeded, 12 behaviour-preserving refactorings under /verif/benign that must stay quiet). DESIGN.md sections 11-14 describe the code as built.",
     }
 
 
